@@ -170,6 +170,13 @@ def execute(cfg, env):
 
     def choose(labels):
         mon.max_pending_gates = max(mon.max_pending_gates, len(labels))
+        order = cfg.get('order')
+        if order == 'reverse':
+            return len(labels) - 1          # long batches: fixed completion orders instead of all of them
+        if order == 'middle':
+            return len(labels) // 2
+        if order == 'fifo':
+            return 0
         return env.choose(('gate', tuple(sorted(labels))), len(labels))
     try:
         try:
@@ -250,6 +257,15 @@ def gen_cases(ctx):
         for conc in (True, False):
             for elems in itertools.product(five, repeat=5):
                 yield dict(part='five', concurrent=conc, mw='none', eh='none', elems=elems)
+    # long batches (lengths around round numbers): three fixed completion orders each - oldest gate first, newest first, middle
+    for L in (5, 8, 16, 17, 32, 33, 63, 64, 65, 100, 128, 129, 257):
+        for pattern in ('calls', 'mixed'):
+            kinds_ = ['g1ok', 'g1perr', 'g0ok', 'plain', 'g2ok', 'v1ok']
+            elems = tuple(('g1ok', True) if pattern == 'calls' else (kinds_[i % len(kinds_)], i % 3 != 2) for i in range(L))
+            for conc in (True, False):
+                for order in ('fifo', 'reverse', 'middle'):
+                    for mw in ('none', 'before'):
+                        yield dict(part='long', concurrent=conc, mw=mw, eh='none', elems=elems, order=order)
     # middleware / error handler stacks (<= 2 suspension points per element in total)
     small = [('g0ok', True), ('g1ok', True), ('g0perr', True), ('g1perr', False), ('unknown', True), ('plainperr', True), ('g1boom', True)]
     for conc in (True, False):
@@ -294,7 +310,7 @@ def run(ctx):
                 'before / after / both and an error handler with a gate on batches of <= %d elements (<= 2 suspension points per '
                 'element); concurrent and sequential mode. For each configuration EVERY order in which pending gates complete is '
                 'executed on the real AsyncDispatcher. state = one complete schedule; non-trivial = schedule of a configuration '
-                'with more than one possible order' % (3, '; 4-element batches over 5 kinds' if ctx.quick else '; 4-element batches over all 14 element types; 5-element batches over 4 single-gate kinds', ctx.pick(2, 3)))
+                'with more than one possible order. Additionally (NOT exhaustive over schedules) batches of 5..257 elements around round lengths under three fixed completion orders (oldest / newest / middle gate first)' % (3, '; 4-element batches over 5 kinds' if ctx.quick else '; 4-element batches over all 14 element types; 5-element batches over 4 single-gate kinds', ctx.pick(2, 3)))
     ctx.assumptions += ['suspension happens only at gates (the instrumented awaits); asyncio ready-queue order is FIFO as asyncio guarantees']
     ctx.run_cases('C10', lambda: gen_cases(ctx), run_case, recheck_every=53)
     c = ctx.rec.counters
